@@ -17,6 +17,7 @@ void run_end();
 // ---- fault plans (in addition to the per-run probabilities in cfg().p[])
 void plan_eintr(int call, int kth);                 // the kth invocation (1-based, counted per run) of this call returns EINTR once
 void plan_fail(int call, int kth, int err);         // the kth invocation fails with err (F11)
+void unplan_fail(int call, int kth);                 // withdraw a planned failure that did not fire
 void plan_kill(int proc, int kth_ipc_call, bool after);   // F6: kill proc before/after its kth IPC call
 int calls_made(int call);                           // invocations so far in this run
 int ipc_calls_of(int proc);
